@@ -29,17 +29,6 @@ def prevPos (head : Nat) : Nat := if head == 0 then INPUT_QUEUE_LENGTH - 1 else 
 
 def new : InputQueue := {}
 
-/-- `set_frame_delay`: returns the fill inputs the caller must forward to remotes. -/
-def setFrameDelay (q : InputQueue) (delay : Nat) : InputQueue × List PlayerInput :=
-  let oldDelay := q.frameDelay
-  let q := { q with frameDelay := delay }
-  if delay ≤ oldDelay || q.lastAddedFrame == NULL_FRAME then (q, [])
-  else
-    let fillCount := delay - oldDelay
-    let fillStart := q.lastAddedFrame + 1
-    let lastInput := rget q.inputs (prevPos q.head)
-    (q, (List.range fillCount).map fun (i : Nat) => ⟨fillStart + (i : Int), lastInput.input⟩)
-
 def resetPrediction (q : InputQueue) : InputQueue :=
   { q with prediction := { q.prediction with frame := NULL_FRAME },
            firstIncorrectFrame := NULL_FRAME, lastRequestedFrame := NULL_FRAME }
@@ -110,6 +99,24 @@ def addInputByFrame (q : InputQueue) (inp : PlayerInput) (frameNumber : Frame) :
       return { q with prediction := { q.prediction with frame := q.prediction.frame + 1 } }
   else
     return q
+
+/-- The fill loop of `set_frame_delay`: copies of the newest input until the next submission's
+landing frame is adjacent. -/
+def delayFillLoop (lastInput : PlayerInput) : Nat → InputQueue → List PlayerInput → M (InputQueue × List PlayerInput)
+  | 0, q, fills => .ok (q, fills)
+  | n + 1, q, fills => do
+    let fillFrame := q.lastAddedFrame + 1
+    let q ← addInputByFrame q lastInput fillFrame
+    delayFillLoop lastInput n q (fills ++ [⟨fillFrame, lastInput.input⟩])
+
+/-- `set_frame_delay`: sets the delay, closes the gap the new delay opens up in front of the next
+submission and returns the fill inputs (the caller forwards them to remotes). -/
+def setFrameDelay (q : InputQueue) (delay : Nat) : M (InputQueue × List PlayerInput) := do
+  let q := { q with frameDelay := delay }
+  if q.lastAddedFrame == NULL_FRAME then return (q, [])
+  let nextFrame := q.lastUserFrame + 1 + delay
+  let lastInput := rget q.inputs (prevPos q.head)
+  delayFillLoop lastInput (nextFrame - (q.lastAddedFrame + 1)).toNat q []
 
 /-- The fill loop of `advance_queue_head`: replicates the input found at the position computed
 *before* the loop. -/
